@@ -57,6 +57,10 @@ def run_one(h):
             r = subprocess.run([os.path.join(V, 'bin', 'govc'), 'check', p, 'quick'], cwd=V, capture_output=True, text=True,
                                env=dict(ENV, VERIF_REPO=os.path.join(d, 'repo'), VERIF_OUT=os.path.join(d, 'out'), GOVC_NO_REPLAY='1'))
             if r.returncode == 1:
+                # as the registered check does: let the replay drivers try the refutation on the real code
+                r = subprocess.run([os.path.join(V, 'bin', 'govc'), 'check', p, 'quick'], cwd=V, capture_output=True, text=True,
+                                   env=dict(ENV, VERIF_REPO=os.path.join(d, 'repo'), VERIF_OUT=os.path.join(d, 'out')))
+            if r.returncode == 1:
                 bad.append(p + ':' + ' '.join(l.split('obligation=')[1].split()[0] for l in r.stdout.splitlines() if l.startswith('VIOLATION'))[:200])
             elif r.returncode != 0:
                 und.append(p + ':' + ([l for l in r.stdout.splitlines() if l.startswith('UNDECIDED')] or [(r.stdout + r.stderr).strip().splitlines()[-1] if (r.stdout + r.stderr).strip() else 'exit 2'])[0][:200])
